@@ -3,7 +3,7 @@ import os
 import re
 import prvlib as L
 
-HDIR = "allocator"
+HDIR = "tcphandlers"
 
 
 def sig_of(prop, clause):
